@@ -246,16 +246,16 @@ func checkC15(P *Prog, r *Result) {
 			if ci.static.String() == "(*net/http.Request).ParseForm" {
 				parseForm = true
 			}
-			if ci.static.Name() == "form" && len(ci.args()) == 2 {
-				a := cv(ci.args()[0])
-				if _, fl := loadOfField(a); fl != nil {
-					src = "r." + fl.Name()
-				}
-				if c, ok := a.(*ssa.Call); ok && callOf(c).static != nil {
-					src = callOf(c).static.String()
-				}
-			}
 		})
+		// the url.Values the provider is built over (directly, or through a helper such as form(values, &tag))
+		for _, b := range P.valuesProviderBuilds(f) {
+			if _, fl := loadOfField(b.data); fl != nil {
+				src = "r." + fl.Name()
+			}
+			if c, ok := b.data.(*ssa.Call); ok && callOf(c).static != nil {
+				src = callOf(c).static.String()
+			}
+		}
 		switch {
 		case nm == "Form" && parseForm && src == "r.Form":
 			r.ok("C15/dispatch-table", "Config.Parsers.Form", P.pos(f.Pos()), "ParseForm then r.Form (body plus query, as net/http defines)")
@@ -875,4 +875,69 @@ func capturedNonNil(al *ssa.Alloc, cl *ssa.Function) string {
 		return "the variable can be written after the closure was created"
 	}
 	return ""
+}
+
+// valuesProviderBuilds: the url.Values-backed providers a front-end closure
+// builds, in the closure itself or in a helper it calls (`form(values, &tag)`):
+// for every composite value of a provider type with a url.Values field, the
+// value stored into that field and the one stored into its *string tag field,
+// resolved to the closure's own values through the helper's call-site bindings.
+type provBuild struct {
+	data, tag ssa.Value
+	in        ssa.Instruction
+}
+
+func (P *Prog) valuesProviderBuilds(fn *ssa.Function) []provBuild {
+	var out []provBuild
+	isValues := func(t types.Type) bool { return typeStr(t) == "net/url.Values" }
+	isTag := func(t types.Type) bool {
+		pt, ok := t.Underlying().(*types.Pointer)
+		return ok && types.Identical(pt.Elem(), types.Typ[types.String])
+	}
+	for _, u := range P.allUnits(fn) {
+		u.with(func() {
+			per := map[*ssa.Alloc]*provBuild{}
+			var order []*ssa.Alloc
+			eachInstr(u.fn, func(_ *ssa.BasicBlock, _ int, in ssa.Instruction) {
+				st, ok := in.(*ssa.Store)
+				if !ok {
+					return
+				}
+				fa, ok := st.Addr.(*ssa.FieldAddr)
+				if !ok {
+					return
+				}
+				al, ok := fa.X.(*ssa.Alloc)
+				if !ok {
+					return
+				}
+				elem := al.Type().Underlying().(*types.Pointer).Elem()
+				stT, ok := elem.Underlying().(*types.Struct)
+				if !ok || !P.isProviderType(elem) {
+					return
+				}
+				ft := stT.Field(fa.Field).Type()
+				if !isValues(ft) && !isTag(ft) {
+					return
+				}
+				b := per[al]
+				if b == nil {
+					b = &provBuild{in: in}
+					per[al] = b
+					order = append(order, al)
+				}
+				if isValues(ft) {
+					b.data = cv(st.Val)
+				} else {
+					b.tag = cv(st.Val)
+				}
+			})
+			for _, al := range order {
+				if per[al].data != nil {
+					out = append(out, *per[al])
+				}
+			}
+		})
+	}
+	return out
 }
